@@ -191,6 +191,12 @@ func (k Keeper) BurnEdenBoost(ctx sdk.Context, creator sdk.AccAddress, denom str
 
 	k.SetCommitments(ctx, commitments)
 
+	// Update total commitment (never below zero)
+	params := k.GetParams(ctx)
+	burnFromTotal := math.MinInt(amount, params.TotalCommitted.AmountOf(denom))
+	params.TotalCommitted = params.TotalCommitted.Sub(sdk.NewCoin(denom, burnFromTotal))
+	k.SetParams(ctx, params)
+
 	if k.hooks != nil {
 		err = k.hooks.CommitmentChanged(ctx, creator, sdk.Coins{sdk.NewCoin(denom, amount)})
 		if err != nil {
